@@ -32,6 +32,7 @@ def dispatch (j : Json) : Json :=
   | "pipeline" => handlePipeline j
   | "explain" => handleExplain j
   | "discoverlist" => handleDiscoverList j
+  | "legacyshape" => handleLegacyShape j
   | "report" => handleReport j
   | "rulesfile" => handleRulesFile j
   | "viewsfile" => handleViewsFile j
